@@ -187,6 +187,42 @@ def run(rep, pdb, tier):
             ok = e.op == "+=" and is_abs_term(e.value) and e.value[2] == ("idx", VEC0, r[0]) and r[1:5] == (num(0), N0, False, False) and is_zero_term(ctx.term(acc.init))
         rep.add("abs-norms/norm_1", rule, ok, fn["body"], "", where=loc(fn["body"]))
     V64 = "vector::Vector<f64>"
+    # the exponent domain p in [1, 8] is not narrowed: no panic guard of norm_p can fire for an exponent in that interval
+    fnp = pdb.fn("%s::norm_p" % V64)
+    if fnp is not None:
+        from .common import entry_guards as _eg
+        from fractions import Fraction as _Fr
+        cx = Ctx.for_fn(pdb, fnp)
+
+        def _val(t_, p_):
+            if t_ == P(1):
+                return p_
+            if t_[0] == "num":
+                return t_[1]
+            return None
+
+        def _holds(at, p_):
+            if at[0] not in ("cmp", "ncmp"):
+                return None
+            a_, b_ = _val(at[2], p_), _val(at[3], p_)
+            if a_ is None or b_ is None:
+                return None
+            r_ = {"<": a_ < b_, "<=": a_ <= b_, ">": a_ > b_, ">=": a_ >= b_, "==": a_ == b_, "!=": a_ != b_}[at[1]]
+            return (not r_) if at[0] == "ncmp" else r_
+        badg = []
+        for g in _eg(pdb, cx):
+            if g.kind != "panic":
+                continue
+            for alt in g.alts:
+                if not any(P(1) in (a_[2:4] if len(a_) >= 4 else ()) for a_ in alt):
+                    continue
+                for p_ in (_Fr(1), _Fr(3, 2), _Fr(2), _Fr(8)):
+                    vals = [_holds(a_, p_) for a_ in alt]
+                    if all(v_ is True for v_ in vals):
+                        badg.append((g, p_))
+                        break
+        rep.add("abs-norms/norm_p/domain", "no panic guard of norm_p fires for an exponent in [1, 8] (p = 1 is the 1-norm and belongs to the domain)", not badg,
+                badg[0][0].node if badg else fnp["body"], "guards that reject an admissible exponent: %s" % [("p = %s" % float(p_)) for _, p_ in badg], where=loc(badg[0][0].node) if badg else loc(fnp["body"]))
     for name, outer in (("norm_2", "sqrt"), ("norm_p", "powf")):
         fn = pdb.fn("%s::%s" % (V64, name))
         rule = "norm_2 = sqrt(sum powf(|v_i|, 2)); norm_p = powf(sum powf(|v_i|, p), 1/p) (or the same with |v_i| scaled by the inf-norm and the result scaled back); full range, accumulator from 0"
